@@ -402,25 +402,28 @@ class _Sub(ast.NodeTransformer):
 
 _KEEP: frozenset = frozenset()
 _HOIST_TESTS = False
+_COMP_LOOPS = False
 _CUR_BODY: Optional[List[ast.stmt]] = None
 
 
-def unrolled(model: Model, fi: FuncInfo, keep: frozenset = frozenset(), hoist_tests: bool = False) -> FuncInfo:
+def unrolled(model: Model, fi: FuncInfo, keep: frozenset = frozenset(), hoist_tests: bool = False, comp_loops: bool = False) -> FuncInfo:
     """keep: names of helpers that stay calls (a rule that reasons about the call of a named helper asks for that);
     hoist_tests: a private helper called in the test of an `if` is read in place too (t = h(..); if t: ..) - for rules
     that follow what the helper does, not the name of the predicate"""
-    global _KEEP, _HOIST_TESTS
+    global _KEEP, _HOIST_TESTS, _COMP_LOOPS
     cache = model.__dict__.setdefault("_unrolled_cache", {})
-    k = (fi.qual, keep, hoist_tests)
+    k = (fi.qual, keep, hoist_tests, comp_loops)
     if k in cache:
         return cache[k]
     old, _KEEP = _KEEP, keep
     old_h, _HOIST_TESTS = _HOIST_TESTS, hoist_tests
+    old_c, _COMP_LOOPS = _COMP_LOOPS, comp_loops
     try:
         out = _unroll(model, fi)
     finally:
         _KEEP = old
         _HOIST_TESTS = old_h
+        _COMP_LOOPS = old_c
     cache[k] = out
     return out
 
@@ -678,6 +681,43 @@ def _unroll_literal_loop(st: ast.stmt, literal: Optional[ast.AST] = None) -> Lis
     return out
 
 
+def _comps_to_loops(fi: FuncInfo, body: List[ast.stmt]) -> Tuple[List[ast.stmt], bool]:
+    """x = {k: v for k, v in it if c}  ->  x = {}; for k, v in it: if c: x[k] = v   (and the list form with append), for
+    a plain local x at statement level and one generator whose variables are used nowhere else in the function - what a
+    rule that reads a per-item loop asks for (`comp_loops=True`)"""
+    changed = False
+    names_elsewhere = lambda st_: {n.id for o in body if o is not st_ for n in ast.walk(o) if isinstance(n, ast.Name)} | set(fi.params)  # noqa: E731
+    out: List[ast.stmt] = []
+    for st in body:
+        v = st.value if isinstance(st, ast.Assign) and len(st.targets) == 1 and isinstance(st.targets[0], ast.Name) else None
+        if isinstance(v, (ast.DictComp, ast.ListComp)) and len(v.generators) == 1 and not v.generators[0].is_async:
+            g = v.generators[0]
+            tn = {n.id for n in ast.walk(g.target) if isinstance(n, ast.Name)}
+            x = st.targets[0].id
+            if tn and not (tn & names_elsewhere(st)) and x not in tn and not any(isinstance(n, ast.Name) and n.id == x for n in ast.walk(v)) and not any(isinstance(n, (ast.Lambda, ast.NamedExpr, ast.Yield, ast.Await)) for n in ast.walk(v)):
+                init = ast.Assign(targets=[ast.Name(id=x, ctx=ast.Store())], value=(ast.Dict(keys=[], values=[]) if isinstance(v, ast.DictComp) else ast.List(elts=[], ctx=ast.Load())), type_comment=None)
+                if isinstance(v, ast.DictComp):
+                    store: ast.stmt = ast.Assign(targets=[ast.Subscript(value=ast.Name(id=x, ctx=ast.Load()), slice=clone_ast(v.key), ctx=ast.Store())], value=clone_ast(v.value), type_comment=None)
+                else:
+                    store = ast.Expr(value=ast.Call(func=ast.Attribute(value=ast.Name(id=x, ctx=ast.Load()), attr="append", ctx=ast.Load()), args=[clone_ast(v.elt)], keywords=[]))
+                inner: List[ast.stmt] = [store]
+                for c in reversed(g.ifs):
+                    inner = [ast.If(test=clone_ast(c), body=inner, orelse=[])]
+                loop = ast.For(target=clone_ast(g.target), iter=clone_ast(g.iter), body=inner, orelse=[], type_comment=None)
+                for n_ in (init, loop):
+                    ast.copy_location(n_, st)
+                    ast.fix_missing_locations(n_)
+                    n_._fresh = True  # type: ignore
+                for n_ in ast.walk(loop):
+                    if isinstance(n_, ast.Name) and n_.id in tn and any(n_ is y for y in ast.walk(loop.target)):
+                        n_.ctx = ast.Store()
+                out += [init, loop]
+                changed = True
+                continue
+        out.append(st)
+    return out, changed
+
+
 def _unroll_local_tables(fi: FuncInfo, body: List[ast.stmt]) -> Tuple[List[ast.stmt], bool]:
     """t = ((k1, v1), (k2, v2)); for k, v in t: body   (t a local bound once to a literal of plain expressions and read
     only by that loop; the loop variables dead afterwards): the loop body once per row, in order"""
@@ -919,14 +959,27 @@ def _tail_helper_body(model: Model, fi: FuncInfo, body: List[ast.stmt], caller_n
     if not body or not isinstance(body[-1], ast.Return) or not isinstance(body[-1].value, ast.Call):
         return None
     call = body[-1].value
-    if call.keywords or any(isinstance(a, ast.Starred) for a in call.args):
+    if any(k.arg is None for k in call.keywords) or any(isinstance(a, ast.Starred) for a in call.args):
         return None
     got = _resolve_helper(model, fi, call)
     if got is None:
         return None
     h, skip = got
-    if not call.args and not skip:
+    if not call.args and not call.keywords and not skip:
         return None
+    if call.keywords:
+        # keyword arguments name the parameters they bind (they are evaluated after the positional ones, as written)
+        rest_ = h.pos_params[skip + len(call.args):]
+        kw_ = {k.arg: k.value for k in call.keywords}
+        if h.node.args.vararg or len(kw_) != len(call.keywords) or set(kw_) != set(rest_):
+            return None
+        call = copy.copy(call)
+        written = [k.arg for k in call.keywords]
+        call.args = list(call.args) + [kw_[p_] for p_ in rest_]
+        call.keywords = []
+        _kw_order = written if written != rest_ else None
+    else:
+        _kw_order = None
     if h is fi or h.name in _KEEP or isinstance(h.node, ast.Lambda) or not h.is_private or any(ast.unparse(d) != "staticmethod" for d in h.node.decorator_list):
         return None
     n_sites = len(call_sites_of(model, h))
@@ -982,6 +1035,8 @@ def _tail_helper_body(model: Model, fi: FuncInfo, body: List[ast.stmt], caller_n
             st_._fresh = True  # type: ignore
             pre.append(st_)
             ren[p_] = tmp
+    if _kw_order is not None and len([st_ for st_ in pre if isinstance(st_, ast.Assign)]) > 1:
+        return None  # keywords written in another order than the parameters, more than one of them with an effect: not re-ordered
     # a parameter of the helper must not be re-bound there (it would re-bind the caller's local: harmless, but keep it simple)
     stores = {x.id for st in h.node.body for x in ast.walk(st) if isinstance(x, ast.Name) and isinstance(x.ctx, ast.Store)}
     if stores & set(const_args):
@@ -1198,6 +1253,14 @@ def _unroll(model: Model, fi: FuncInfo) -> FuncInfo:
         if tc.n:
             for st_ in body:
                 _fresh(st_)
+    if _COMP_LOOPS:
+        body, ch = _comps_to_loops(fi, body)
+        changed = changed or ch
+        if ch:
+            for _ in range(2):
+                body, ch2 = _inline_returned_helpers(model, fi, body)
+                if not ch2:
+                    break
     body, ch = _split_records(model, fi, body)
     changed = changed or ch
     body, ch = _unroll_local_tables(fi, body)
